@@ -31,8 +31,17 @@ REQUIRED = ['bipropCheck_sound', 'bipropCheckL_sound', 'infeasible_sound', 'infe
 REQUIRED_COUNTERS = ['transfer_step', 'coef_update', 'zero_cell', 'refusal', 'tie_in_initial_allocation',
                      'zero_vote_party', 'seats_total', 'seats_dict', 'seats_custom', 'd_hondt', 'sainte_lague',
                      'cert_checked_by_lean', 'cut_checked_by_lean', 'large_counts', 'str_keys', 'init_ok_confirmed',
-                     'own_multipliers_certify', 'sparse_dict', 'custom_lr_hare', 'custom_ha_other', 'name_clash',
-                     'name_clash_transfer']
+                     'own_multipliers_certify', 'sparse_dict', 'name_clash', 'name_clash_transfer',
+                     # generator audit (GENERATOR_CHECKLIST.md)
+                     'votes_fraction', 'votes_fractional', 'falsy_fraction_zero', 'fraction_den_above_1e6',
+                     'mag_2p53', 'mag_1e18', 'mag_1e30', 'mag_1e400', 'near_tie_big',
+                     'keys_empty0', 'keys_empty0p', 'keys_person', 'keys_person_d',
+                     'div_callable', 'signpost_q_explicit',
+                     'custom_lr_hare', 'custom_ha_other', 'custom_uniform', 'custom_dict', 'custom_lr_droop', 'custom_qd_hare',
+                     'custom_ha_same', 'custom_dict2',
+                     'zero_vote_district', 'two_zero_vote_parties', 'single_party_district', 'large_matrix', 'degenerate_dim',
+                     'seatless_party', 'seatless_party_tips_district',
+                     'second_call_same_object', 'second_call_after_refusal', 'second_call_smaller', 'other_config_first']
 RULE = ('2-6 districts x 2-6 parties, non-negative integer votes (tiny 0-3, small, mid, up to 10^25; zero cells given as 0 or '
         'as a missing key; zero-vote '
         'parties), D\'Hondt and Sainte-Lague, seats as a total (1..~5m), explicit per-district dict, or custom apportioner '
@@ -644,9 +653,18 @@ def compare(case, iobs, mobs):
 # ------------------------------------------------------------------------------------------------
 # generator
 
-def _mk(rng, V, divisor, seats, keys='int', sparse=False, tags=()):
-    return {'op': 'biprop', 'divisor': divisor, 'votes': [[str(v) for v in r] for r in V], 'seats': seats, 'keys': keys,
-            'sparse': sparse, '_tags': list(tags)}
+KEY_CHOICES = (['int'] * 12 + ['str'] * 2 + ['int_clash'] * 3 + ['str_clash'] + ['empty0', 'empty0p', 'person', 'person_d'])
+DIVSPECS = ['name'] * 5 + ['callable', 'name_q', 'callable_q', 'name_qF']
+CUSTOM = ['lr_hare', 'ha_other', 'uniform', 'dict', 'lr_droop', 'qd_hare', 'ha_same', 'dict2']
+BIG = {'mag_2p53': 2 ** 53, 'mag_1e18': 10 ** 18, 'mag_1e30': 10 ** 30, 'mag_1e400': 10 ** 400}
+
+
+def _mk(rng, V, divisor, seats, keys='int', sparse=False, tags=(), vtype='int', divspec='name', pre=None):
+    c = {'op': 'biprop', 'divisor': divisor, 'votes': [[num_str(v) for v in r] for r in V], 'seats': seats, 'keys': keys,
+         'sparse': sparse, 'vtype': vtype, 'divspec': divspec, '_tags': list(tags)}
+    if pre:
+        c['pre'] = pre
+    return c
 
 
 def _cell(rng, kind):
@@ -659,17 +677,25 @@ def _cell(rng, kind):
     if kind == 'large':
         return rng.randint(10 ** 5, 10 ** 7)
     if kind == 'huge':
-        return 10 ** rng.choice([12, 18, 25]) + rng.randint(-1000, 1000)
+        return 10 ** rng.choice([9, 12, 18, 25]) + rng.randint(-1000, 1000)
     if kind == 'mixed':
         return rng.choice([0, 1, 3, 17, 250, 4000, 10 ** 6 + 7, 10 ** 12 + 39])
+    if kind in BIG:               # near ties and exact ties at a large magnitude
+        return BIG[kind] * rng.choice([1, 1, 1, 2, 3]) + rng.choice([-1, 0, 0, 1, 1, 2, 7])
+    if kind == 'frac':            # Fraction-valued counts (weighted ballots), incl. Fraction(0) and tiny differences
+        return Fraction(rng.randint(0, 60), rng.choice([1, 2, 3, 4, 7, 10 ** 7 + 19]))
+    if kind == 'frac12':          # Fractions that differ in the 12th digit
+        return Fraction(rng.choice([1, 2, 3, 5]) * 10 ** 12 + rng.randint(-2, 2), 10 ** 12)
     return rng.randint(0, 30)
 
 
-def _rand_matrix(rng, m, n, kind, pzero):
+def _rand_matrix(rng, m, n, kind, pzero, zero_row=False):
     V = [[(0 if rng.random() < pzero else max(_cell(rng, kind), 0)) for _ in range(n)] for _ in range(m)]
-    for i in range(m):             # every district casts at least one vote
+    for i in range(m):             # every district casts at least one vote ...
         if not any(V[i]):
             V[i][rng.randrange(n)] = max(_cell(rng, kind), 1)
+    if zero_row and m >= 2:        # ... unless a district without any vote is asked for
+        V[rng.randrange(m)] = [0] * n
     return V
 
 
@@ -678,89 +704,31 @@ def _rand_rows(rng, m, total):
     return [b - a for a, b in zip([0] + cuts, cuts + [total])]
 
 
-def _seat_spec(rng, V, divisor, kind=None):
+def _seat_spec(rng, V, divisor, kind=None, apportioner=None):
     m = len(V)
-    kind = kind or rng.choice(['total', 'total', 'dict', 'custom'])
+    kind = kind or rng.choice(['total', 'total', 'dict', 'custom', 'custom'])
     total = rng.randint(1, max(2, rng.choice([m, 2 * m, 3 * m, 5 * m])))
+    rsum = [sum(x) for x in V]
     if kind == 'total':
         return {'kind': 'total', 'n': total}
     if kind == 'dict':
-        r = rng.random()
-        if r < 0.6:                # a plausible apportionment: proportional by another rule, so that most are feasible
-            rows = ha_ref([sum(x) for x in V], total, 'sainte_lague' if divisor == 'd_hondt' else 'd_hondt') or _rand_rows(rng, m, total)
+        if rng.random() < 0.6:     # a plausible apportionment: proportional by another rule, so that most are feasible
+            rows = ha_ref(rsum, total, 'sainte_lague' if divisor == 'd_hondt' else 'd_hondt') or _rand_rows(rng, m, total)
         else:
             rows = _rand_rows(rng, m, total)
         return {'kind': 'dict', 'rows': rows}
-    a = rng.choice(['lr_hare', 'ha_other', 'uniform', 'dict'])
+    a = apportioner or rng.choice(CUSTOM)
     if a == 'uniform':
         k = rng.randint(1, 4)
         return {'kind': 'custom', 'apportioner': 'uniform', 'n': k * m, 'rows': [k] * m}
-    if a == 'dict':
-        return {'kind': 'custom', 'apportioner': 'dict', 'n': total, 'rows': _rand_rows(rng, m, total) if rng.random() < 0.5 else
-                (ha_ref([sum(x) for x in V], total, divisor) or _rand_rows(rng, m, total))}
+    if a in ('dict', 'dict2'):
+        rows = _rand_rows(rng, m, total) if rng.random() < 0.4 else (ha_ref(rsum, total, divisor) or _rand_rows(rng, m, total))
+        if a == 'dict':
+            return {'kind': 'custom', 'apportioner': 'dict', 'n': total, 'rows': rows}
+        # the n_seats dict only contributes its sum (the seats the parties get); mostly the same sum, sometimes not
+        nrows = _rand_rows(rng, m, total if rng.random() < 0.8 else total + rng.choice([-1, 1]))
+        return {'kind': 'custom', 'apportioner': 'dict2', 'rows': rows, 'nrows': nrows}
     return {'kind': 'custom', 'apportioner': a, 'n': total}
-
-
-def _admit(case):
-    """run the real code once: tie-free marginals (real HighestAverages AND reference), tags from what happened"""
-    import votelib.evaluate.proportional as vp
-    import votelib.evaluate.core as vcore
-    V = _matrix(case)
-    m, n = len(V), len(V[0])
-    total = _total(case)
-    if total < 1:
-        return None
-    ha = vp.HighestAverages(case['divisor'])
-    try:
-        ps = ha.evaluate({j: sum(V[i][j] for i in range(m)) for j in range(n)}, total)
-    except Exception:      # noqa
-        return None
-    if any(isinstance(k, vcore.Tie) for k in ps):
-        return None
-    obs = impl(case)
-    if not isinstance(obs.get('row_impl'), list):
-        return None
-    row, col = _targets(case, obs)
-    if row is None or col is None:
-        return None
-    sp = case['seats']
-    if sp['kind'] == 'custom' and 'rows' not in sp:
-        sp['rows'] = list(obs['row_impl'])
-    tags = case['_tags']
-    tags.append(case['divisor'])
-    tags.append('seats_' + sp['kind'])
-    if sp['kind'] == 'custom':
-        tags.append('custom_' + sp['apportioner'])
-    if case.get('keys', 'int').startswith('str'):
-        tags.append('str_keys')
-    if case.get('keys', 'int').endswith('_clash'):
-        tags.append('name_clash')
-        if obs.get('transfers', 0) > 0:
-            tags.append('name_clash_transfer')
-    if any(v == 0 for r in V for v in r):
-        tags.append('zero_cell')
-    if any(all(V[i][j] == 0 for i in range(m)) for j in range(n)):
-        tags.append('zero_vote_party')
-    if any(v >= 10 ** 5 for r in V for v in r):
-        tags.append('large_counts')
-    if obs.get('transfers', 0) > 0:
-        tags.append('transfer_step')
-    if obs.get('updates') or obs.get('n_updates'):
-        tags.append('coef_update')
-    if obs.get('err') == 'VotingSystemError':
-        tags.append('refusal')
-    # a Tie key inside a per-party allocation of the initial solution
-    for j in range(n):
-        k = ps.get(j, 0)
-        if k:
-            try:
-                r = ha.evaluate({i: V[i][j] for i in range(m)}, k)
-                if any(isinstance(d, vcore.Tie) for d in r):
-                    tags.append('tie_in_initial_allocation')
-                    break
-            except Exception:      # noqa
-                pass
-    return case
 
 
 def _tag(case, t):
@@ -768,23 +736,130 @@ def _tag(case, t):
         case['_tags'].append(t)
 
 
+def _admit(case):
+    """admission = the two marginal apportionments are tie-free, decided by the independent reference alone (a wrong Tie or
+    a wrong marginal of the implementation stays in and is judged by the oracle); tags from what the real code did"""
+    V = _matrix(case)
+    m, n = len(V), len(V[0])
+    total = _total(case)
+    if total < 1:
+        return None
+    obs = impl(case)
+    row, col = _targets(case, obs)
+    if row is None or col is None:
+        return None
+    sp = case['seats']
+    if sp['kind'] == 'custom' and 'rows' not in sp:
+        sp['rows'] = list(row)
+    tags = case['_tags']
+    T = lambda t: _tag(case, t)      # noqa
+    T(case['divisor'])
+    T('seats_' + sp['kind'])
+    if sp['kind'] == 'custom':
+        T('custom_' + sp['apportioner'])
+    keys = case.get('keys', 'int')
+    if keys.startswith('str'):
+        T('str_keys')
+    if keys in ('empty0', 'empty0p', 'person', 'person_d'):
+        T('keys_' + keys)
+    if keys.endswith('_clash'):
+        T('name_clash')
+        if obs.get('transfers', 0) > 0:
+            T('name_clash_transfer')
+    ds = case.get('divspec', 'name')
+    if ds.startswith('callable'):
+        T('div_callable')
+    if ds != 'name' and ds != 'callable':
+        T('signpost_q_explicit')
+    cells = [v for r in V for v in r]
+    if case.get('vtype') == 'frac':
+        T('votes_fraction')
+        if any(isinstance(v, Fraction) for v in cells):
+            T('votes_fractional')
+        if any(v == 0 for v in cells):
+            T('falsy_fraction_zero')
+    if any(isinstance(v, Fraction) and v.denominator > 10 ** 6 for v in cells):
+        T('fraction_den_above_1e6')
+    if any(v == 0 for v in cells):
+        T('zero_cell')
+    zc = sum(1 for j in range(n) if all(V[i][j] == 0 for i in range(m)))
+    if zc >= 1:
+        T('zero_vote_party')
+    if zc >= 2:
+        T('two_zero_vote_parties')
+    if any(not any(r) for r in V):
+        T('zero_vote_district')
+    if any(sum(1 for v in r if v != 0) == 1 for r in V):
+        T('single_party_district')
+    if max(m, n) >= 7:
+        T('large_matrix')
+    if min(m, n) == 1:
+        T('degenerate_dim')
+    if any(v >= 10 ** 5 for v in cells):
+        T('large_counts')
+    for name, b in BIG.items():
+        if any(b // 2 <= v < b * 4 for v in cells):
+            T(name)
+    big = sorted(v for v in cells if v >= 2 ** 52)
+    if any(0 <= y - x <= 2 for x, y in zip(big, big[1:])):
+        T('near_tie_big')
+    if obs.get('transfers', 0) > 0:
+        T('transfer_step')
+    if obs.get('updates') or obs.get('n_updates'):
+        T('coef_update')
+    if obs.get('err') == 'VotingSystemError':
+        T('refusal')
+    # a Tie inside a per-party allocation of the initial solution (reference: the k-th and (k+1)-th quotient of the column tie)
+    if any(col[j] and ha_ref([V[i][j] for i in range(m)], col[j], case['divisor']) is None for j in range(n)):
+        T('tie_in_initial_allocation')
+    # a party with votes but without a seat whose votes nevertheless decide the district apportionment
+    if sp['kind'] == 'total':
+        seatless = [j for j in range(n) if col[j] == 0 and any(V[i][j] for i in range(m))]
+        if seatless:
+            T('seatless_party')
+            without = ha_ref([sum(V[i][j] for j in range(n) if j not in seatless) for i in range(m)], total, case['divisor'])
+            if without is not None and without != row:
+                T('seatless_party_tips_district')
+    for pre in case.get('pre', []):
+        if pre.get('same', True):
+            T('second_call_same_object')
+            if pre.get('_refuses'):
+                T('second_call_after_refusal')
+            if len(pre['votes']) * len(pre['votes'][0]) > m * n:
+                T('second_call_smaller')
+        else:
+            T('other_config_first')
+    return case
+
+
 def _random_case(rng):
-    m, n = rng.randint(2, 6), rng.randint(2, 6)
-    kind = rng.choice(['tiny', 'small', 'small', 'mid', 'mid', 'large', 'huge', 'mixed', 'any'])
+    r = rng.random()
+    if r < 0.04:
+        m, n = rng.randint(6, 8), rng.randint(6, 8)
+    elif r < 0.06:
+        m, n = rng.choice([(1, rng.randint(2, 5)), (rng.randint(2, 5), 1)])
+    else:
+        m, n = rng.randint(2, 6), rng.randint(2, 6)
+    kind = rng.choice(['tiny', 'small', 'small', 'mid', 'mid', 'large', 'huge', 'mixed', 'any', 'frac', 'frac', 'frac12',
+                       'mag_2p53', 'mag_1e18', 'mag_1e30'])
+    if rng.random() < 0.01:
+        kind = 'mag_1e400'
     pzero = rng.choice([0, 0, 0.1, 0.25, 0.5])
-    V = _rand_matrix(rng, m, n, kind, pzero)
-    if rng.random() < 0.08:
-        j = rng.randrange(n)
+    V = _rand_matrix(rng, m, n, kind, pzero, zero_row=rng.random() < 0.05)
+    if rng.random() < 0.08 and n >= 2:
+        for j in rng.sample(range(n), 2 if (n >= 3 and rng.random() < 0.5) else 1):
+            for i in range(m):
+                V[i][j] = 0
         for i in range(m):
-            V[i][j] = 0
-        for i in range(m):
-            if not any(V[i]):
-                V[i][(j + 1) % n] = 1 + rng.randint(0, 5)
+            if not any(V[i]) and rng.random() < 0.9:
+                free = [j for j in range(n) if any(V[k][j] for k in range(m))] or [0]
+                V[i][rng.choice(free)] = 1 + rng.randint(0, 5)
     divisor = rng.choice(DIVS)
-    keys = rng.choice(['int'] * 13 + ['str'] * 3 + ['int_clash'] * 3 + ['str_clash'])
+    keys = rng.choice(KEY_CHOICES)
     sparse = rng.random() < 0.06 and any(v == 0 for r in V for v in r)
-    return _mk(rng, V, divisor, _seat_spec(rng, V, divisor), keys=keys, sparse=sparse,
-               tags=['sparse_dict'] if sparse else [])
+    vtype = 'frac' if kind.startswith('frac') or rng.random() < 0.1 else 'int'
+    return _mk(rng, V, divisor, _seat_spec(rng, V, divisor), keys=keys, sparse=sparse, vtype=vtype,
+               divspec=rng.choice(DIVSPECS), tags=['sparse_dict'] if sparse else [])
 
 
 def _directed_refusal(rng):
@@ -817,12 +892,88 @@ def _directed_zero_party(rng):
     m, n = rng.randint(2, 5), rng.randint(3, 6)
     divisor = rng.choice(DIVS)
     V = _rand_matrix(rng, m, n, rng.choice(['small', 'mid']), 0.1)
-    j = rng.randrange(n)
+    for j in rng.sample(range(n), rng.choice([1, 2]) if n >= 4 else 1):
+        for i in range(m):
+            V[i][j] = 0
+    for i in range(m):
+        if not any(V[i]):
+            free = [j for j in range(n) if any(V[k][j] for k in range(m))] or [0]
+            V[i][rng.choice(free)] = rng.randint(1, 9)
+    return _mk(rng, V, divisor, _seat_spec(rng, V, divisor, 'total'), tags=['directed_zero_party'])
+
+
+def _directed_seatless(rng):
+    """a small party without a seat, concentrated in one district, whose votes tip that district's seat"""
+    m, n = rng.randint(2, 4), rng.randint(3, 5)
+    divisor = rng.choice(DIVS)
+    V = _rand_matrix(rng, m, n, 'mid', 0.0)
+    j = n - 1
     for i in range(m):
         V[i][j] = 0
-        if not any(V[i]):
-            V[i][(j + 1) % n] = rng.randint(1, 9)
-    return _mk(rng, V, divisor, _seat_spec(rng, V, divisor, 'total'), tags=['directed_zero_party'])
+    V[rng.randrange(m)][j] = rng.randint(20, 200)
+    return _mk(rng, V, divisor, {'kind': 'total', 'n': rng.randint(2, 2 * m)}, tags=['directed_seatless'])
+
+
+def _directed_shapes(rng):
+    """shapes the code branches on: a district without votes, a district with a single party, big near ties, 7x7..8x8, 1xn"""
+    r = rng.randrange(5)
+    divisor = rng.choice(DIVS)
+    if r == 0:
+        m, n = rng.randint(2, 5), rng.randint(2, 5)
+        V = _rand_matrix(rng, m, n, 'small', 0.1, zero_row=True)
+    elif r == 1:
+        m, n = rng.randint(2, 5), rng.randint(2, 5)
+        V = _rand_matrix(rng, m, n, 'mid', 0.1)
+        i = rng.randrange(m)
+        V[i] = [0] * n
+        V[i][rng.randrange(n)] = rng.randint(1, 500)
+    elif r == 2:
+        m, n = rng.randint(2, 4), rng.randint(2, 4)
+        V = _rand_matrix(rng, m, n, rng.choice(list(BIG)), 0.1)
+    elif r == 3:
+        m, n = rng.randint(7, 8), rng.randint(6, 8)
+        V = _rand_matrix(rng, m, n, rng.choice(['small', 'mid', 'large']), rng.choice([0, 0.2]))
+    else:
+        m, n = rng.choice([(1, rng.randint(2, 5)), (rng.randint(2, 5), 1)])
+        V = _rand_matrix(rng, m, n, 'mid', 0.0)
+    return _mk(rng, V, divisor, _seat_spec(rng, V, divisor, rng.choice(['total', 'total', 'dict'])), tags=['directed_shape'])
+
+
+def _directed_config(rng):
+    """every key mode, every way of giving the divisor / signpost_q, every kind of apportioner, Fraction votes: a fixed share"""
+    m, n = rng.randint(2, 5), rng.randint(2, 5)
+    divisor = rng.choice(DIVS)
+    what = rng.randrange(4)
+    kind = 'frac' if what == 3 else rng.choice(['small', 'mid', 'large'])
+    V = _rand_matrix(rng, m, n, kind, rng.choice([0, 0.15]))
+    keys = rng.choice(['empty0', 'empty0p', 'person', 'person_d']) if what == 0 else rng.choice(['int', 'int', 'int_clash', 'str'])
+    divspec = rng.choice(['callable', 'name_q', 'callable_q', 'name_qF']) if what == 1 else 'name'
+    seats = _seat_spec(rng, V, divisor, 'custom', rng.choice(CUSTOM)) if what == 2 else _seat_spec(rng, V, divisor, 'total')
+    return _mk(rng, V, divisor, seats, keys=keys, vtype='frac' if what == 3 else 'int', divspec=divspec, tags=['directed_config'])
+
+
+def _directed_history(rng):
+    """the same evaluator object used before (larger matrix first; a refused instance first), or another configuration first"""
+    m, n = rng.randint(2, 4), rng.randint(2, 4)
+    divisor = rng.choice(DIVS)
+    V = _rand_matrix(rng, m, n, rng.choice(['small', 'mid']), 0.1)
+    r = rng.randrange(3)
+    pm, pn = (rng.randint(m, 6), rng.randint(n, 6)) if r != 2 else (m, n)
+    PV = _rand_matrix(rng, pm, pn, rng.choice(['small', 'mid', 'large']), 0.2)
+    pre = {'votes': [[num_str(v) for v in row] for row in PV], 'divisor': divisor, 'same': True,
+           'seats': {'kind': 'total', 'n': rng.randint(1, 3 * pm)}}
+    if r == 1:                     # an infeasible earlier call: district 0 votes for party 0 only and wants everything
+        PV[0] = [5] + [0] * (pn - 1)
+        PV[1][1 % pn] = max(PV[1][1 % pn], 50)
+        tot = rng.randint(pm + 2, 3 * pm)
+        pre['votes'] = [[num_str(v) for v in row] for row in PV]
+        pre['seats'] = {'kind': 'dict', 'rows': [tot] + [0] * (pm - 1)}
+        pre['_refuses'] = True
+    if r == 2:                     # another object of the class, configured differently, runs first
+        pre['same'] = False
+        pre['divisor'] = 'sainte_lague' if divisor == 'd_hondt' else 'd_hondt'
+    return _mk(rng, V, divisor, _seat_spec(rng, V, divisor, 'total'), keys=rng.choice(['int', 'int', 'str']), pre=[pre],
+               tags=['directed_history'])
 
 
 def _exhaustive():
@@ -849,7 +1000,10 @@ def _gen(rng, tier):
             k += 1
             yield c
     for maker, want, cnt in [(_directed_refusal, 'refusal', D), (_directed_tie, 'tie_in_initial_allocation', D),
-                             (_directed_zero_party, 'zero_vote_party', D // 2)]:
+                             (_directed_zero_party, 'zero_vote_party', D // 2),
+                             (_directed_seatless, 'seatless_party_tips_district', D // 2),
+                             (_directed_shapes, 'directed_shape', 2 * D), (_directed_config, 'directed_config', 4 * D),
+                             (_directed_history, 'directed_history', 2 * D)]:
         got = 0
         tries = 0
         while got < cnt and tries < 60 * cnt:
@@ -859,7 +1013,7 @@ def _gen(rng, tier):
             if c is not None and want in c['_tags']:
                 got += 1
                 yield c
-    # the witnesses of the two repaired defects and their neighbourhood
+    # the witnesses of the repaired defects and their neighbourhood
     for c in _witness_cases():
         c = _admit(c)
         if c is not None:
@@ -880,6 +1034,10 @@ def _witness_cases():
     yield _mk(None, [[3, 0], [5, 10]], 'd_hondt', {'kind': 'total', 'n': 4}, sparse=True, tags=['witness_ac330c6', 'sparse_dict'])
     yield _mk(None, [[3, 0, 1], [5, 10, 0], [0, 4, 1]], 'sainte_lague', {'kind': 'total', 'n': 5}, sparse=True,
               tags=['witness_ac330c6', 'sparse_dict'])
+    # candidate objects without an order (Person as party / as district) on a matrix that needs the labelling search
+    for km in ('person', 'person_d'):
+        yield _mk(None, [[30, 5, 11], [7, 40, 9], [12, 13, 14]], 'd_hondt', {'kind': 'total', 'n': 9}, keys=km,
+                  tags=['witness_unorderable'])
 
 
 def generate(rng, tier):
@@ -897,13 +1055,25 @@ def shrink_candidates(case):
         c['seats'] = sp2
         c['_tags'] = []
         return c
+    if case.get('pre'):
+        c = dict(case)
+        c['pre'] = case['pre'][1:]
+        c['_tags'] = []
+        yield c
+    for k, dflt in (('vtype', 'int'), ('divspec', 'name'), ('sparse', False)):
+        if case.get(k, dflt) != dflt:
+            c = dict(case)
+            c[k] = dflt
+            c['_tags'] = []
+            yield c
     if m > 2:
         for i in range(m):
             sp2 = dict(sp)
-            if 'rows' in sp:
-                sp2['rows'] = sp['rows'][:i] + sp['rows'][i + 1:]
-                if sp['kind'] == 'custom' and sp['apportioner'] not in ('uniform', 'dict'):
-                    sp2.pop('rows')
+            for rk in ('rows', 'nrows'):
+                if rk in sp:
+                    sp2[rk] = sp[rk][:i] + sp[rk][i + 1:]
+            if 'rows' in sp and sp['kind'] == 'custom' and sp['apportioner'] not in ('uniform', 'dict', 'dict2'):
+                sp2.pop('rows')
             yield with_(V[:i] + V[i + 1:], sp2)
     if n > 2:
         for j in range(n):
@@ -917,13 +1087,17 @@ def shrink_candidates(case):
             yield with_(V, sp2)
     for i in range(m):
         for j in range(n):
-            v = int(V[i][j])
+            v = Fraction(V[i][j])
             if v > 1:
                 V2 = [list(r) for r in V]
-                V2[i][j] = str(v // 2)
+                V2[i][j] = num_str(Fraction(int(v) // 2))
                 yield with_(V2, dict(sp))
 
 
 def describe(case):
     app, n_seats = _apportioner(case)
-    return (f"BiproportionalEvaluator({case['divisor']!r}, apportioner={app!r}).evaluate({_votes_dict(case)!r}, {n_seats!r})")
+    div, kw = _ctor_args(case)
+    extra = ''.join(f', {k}={v!r}' for k, v in kw.items())
+    hist = ''.join(f"  [after {'the same object' if p.get('same', True) else 'another ' + p['divisor'] + ' object'} evaluated "
+                   f"{_votes_dict(case, p['votes'])!r}, {_apportioner(case, p['seats'])[1]!r}]" for p in case.get('pre', []))
+    return (f"BiproportionalEvaluator({div!r}, apportioner={app!r}{extra}).evaluate({_votes_dict(case)!r}, {n_seats!r}){hist}")
